@@ -13,7 +13,7 @@
 // Commands (every command starts with a yield point, event "C <text>", and ends with an event
 // "R <value>" logged inside its last step):
 //   any thread   : wake <w> | drop <w> | send <c> <m> | closed <c>
-//   main only    : new <w> | fill <n> | poll | pollif (poll_wake only if notified since the last one) | spawn | join | cnew <c> | cdrop <c>
+//   main only    : new <w> | fill <n> | poll | pollif (poll_wake only if notified since the last one) | spawn | join | waitidle (until no other thread can run) | cnew <c> | cdrop <c>
 //                  | pnew <p> | psend <p> <m> | pdrop <p>
 //   piped worker : recv | send <m> | cancel | panic       (end of script = return)
 //
@@ -41,6 +41,7 @@ enum Cmd {
     PollIf,
     Spawn,
     Join,
+    WaitIdle,
     CNew(u32),
     CDrop(u32),
     PNew(u32),
@@ -64,6 +65,7 @@ fn text(c: &Cmd) -> String {
         Cmd::PollIf => "pollif".into(),
         Cmd::Spawn => "spawn".into(),
         Cmd::Join => "join".into(),
+        Cmd::WaitIdle => "waitidle".into(),
         Cmd::CNew(c) => format!("cnew {}", c),
         Cmd::CDrop(c) => format!("cdrop {}", c),
         Cmd::PNew(p) => format!("pnew {}", p),
@@ -92,6 +94,7 @@ fn parse_cmd(s: &str, piped: bool) -> Cmd {
         "pollif" => Cmd::PollIf,
         "spawn" => Cmd::Spawn,
         "join" => Cmd::Join,
+        "waitidle" => Cmd::WaitIdle,
         "cnew" => Cmd::CNew(n(1) as u32),
         "cdrop" => Cmd::CDrop(n(1) as u32),
         "pnew" => Cmd::PNew(n(1) as u32),
@@ -353,6 +356,10 @@ fn main() {
             }
             Cmd::Join => {
                 ctl::join_all();
+                ret("-");
+            }
+            Cmd::WaitIdle => {
+                ctl::wait_idle();
                 ret("-");
             }
             Cmd::CNew(c) => {
